@@ -21,14 +21,18 @@ import (
 	"example.com/scion-time/net/udp"
 )
 
-// slog handler that remembers what the client said about authentication
+// slog handler that remembers what the client said about authentication.
+// OPTIONAL: the client's verdict (rec.Cli) is decided without it, from what the
+// measurement call returns and when; what is remembered here only feeds the
+// cross-check field rec.CliLog (strict section), and only if records with the
+// names known today were seen at all.
 type cliLog struct {
-	mu        sync.Mutex
-	received  bool   // "received response" was logged
-	auth      bool   // ... with auth=true
-	evaluated bool   // "evaluated response": an offset was computed from it
-	authFail  bool   // "failed to authenticate packet"
-	failed    string // error of "failed to measure clock offset"
+	mu       sync.Mutex
+	seen     bool   // a record with one of the known names was logged
+	received bool   // "received response" was logged
+	auth     bool   // ... with auth=true
+	authFail bool   // "failed to authenticate packet"
+	failed   string // error of "failed to measure clock offset"
 }
 
 func (l *cliLog) Enabled(context.Context, slog.Level) bool { return true }
@@ -38,6 +42,10 @@ func (l *cliLog) Handle(_ context.Context, r slog.Record) error {
 	l.mu.Lock()
 	defer l.mu.Unlock()
 	switch r.Message {
+	case "received response", "failed to authenticate packet", "failed to measure clock offset":
+		l.seen = true
+	}
+	switch r.Message {
 	case "received response":
 		l.received = true
 		r.Attrs(func(a slog.Attr) bool {
@@ -46,8 +54,6 @@ func (l *cliLog) Handle(_ context.Context, r slog.Record) error {
 			}
 			return true
 		})
-	case "evaluated response":
-		l.evaluated = true
 	case "failed to authenticate packet":
 		l.authFail = true
 	case "failed to measure clock offset":
@@ -118,7 +124,9 @@ func (h *harness) runE2EOne(id int, c *tcase, sub, rsub int, rng *rand.Rand) e2e
 		dp = spath.SCION{Raw: pathBytes(p)}
 	}
 	sp := spath.Path{Src: iaC, Dst: iaS, DataplanePath: dp, NextHop: udpAddr(h.w.ipP, portOf(R))}
-	ctx, cancel := context.WithTimeout(context.Background(), 3*time.Second)
+	const callTimeout = 3 * time.Second
+	tStart := time.Now() // the call's deadline is not before tStart + callTimeout
+	ctx, cancel := context.WithTimeout(context.Background(), callTimeout)
 	defer cancel()
 	done := make(chan cliResult, 1)
 	go func() {
@@ -126,35 +134,72 @@ func (h *harness) runE2EOne(id int, c *tcase, sub, rsub int, rng *rand.Rand) e2e
 		done <- cliResult{ts, err}
 	}()
 
+	// again: hands the client one more copy of what it was given (nil: nothing to repeat)
+	var again func()
 	finish := func() e2eRun {
 		var res cliResult
-		select {
-		case res = <-done:
-		case <-time.After(4 * time.Second):
-			r.Cli, r.CliErr = "other", "client did not return"
-			return run
+		// A client that turns a datagram down keeps waiting for as many further ones as
+		// its budget of skipped datagrams allows, and only then returns: it gets further
+		// copies (a few, some milliseconds apart) until it returns, so that its verdict
+		// does not have to wait for its deadline whatever that budget is.
+		returned := false
+		for copies := 2; !returned; copies++ {
+			wait := 4 * time.Second
+			if again != nil && copies < 10 {
+				wait = 15 * time.Millisecond
+			}
+			select {
+			case res = <-done:
+				returned = true
+			case <-time.After(wait):
+				if wait == 4*time.Second {
+					r.Cli, r.CliErr = "other", "client did not return"
+					return run
+				}
+				again()
+			}
 		}
-		lg.mu.Lock()
-		defer lg.mu.Unlock()
+		tRet := time.Now()
 		// MeasureClockOffsetSCION reports a failed measurement as the zero
-		// measurement (no error): a measurement was reported iff the timestamp is set
+		// measurement (no error): a measurement was reported iff the timestamp is set.
+		// The verdict needs no log record:
+		//   accept  the call returned a measurement
+		//   refuse  a response was handed to the client's socket (twice) and the call
+		//           returned without a measurement BEFORE its deadline: the client read
+		//           what it was given and turned it down
+		//   other   anything else (nothing delivered, deadline reached, no return)
 		reported := res.err == nil && !res.ts.IsZero()
 		switch {
-		case reported && lg.received && lg.auth:
-			r.Cli = "verified"
 		case reported:
-			r.Cli = "unauth"
-		case lg.authFail || lg.failed == "invalid authenticator":
-			r.Cli, r.CliErr = "reject", lg.failed
+			r.Cli = "accept"
+		case r.Delivered && tRet.Before(tStart.Add(callTimeout)):
+			r.Cli = "refuse"
 		default:
-			r.Cli, r.CliErr = "other", lg.failed
+			r.Cli = "other"
 			if res.err != nil {
 				r.CliErr = res.err.Error()
 			}
 		}
-		if reported != lg.evaluated {
-			r.CliErr = "inconsistent: reported and log disagree"
-			r.Cli = "other"
+		// optional cross-check: the verdict according to the log records known today
+		lg.mu.Lock()
+		defer lg.mu.Unlock()
+		if lg.seen {
+			// (each class only from records that were seen: a renamed or dropped
+			// record leaves the field empty, it does not make a contradiction)
+			switch {
+			case reported && lg.received && lg.auth:
+				r.CliLog = "verified"
+			case reported && lg.received:
+				r.CliLog = "unauth"
+			case reported:
+			case lg.authFail || lg.failed == "invalid authenticator":
+				r.CliLog = "reject"
+			case lg.failed != "":
+				r.CliLog = "other"
+			}
+			if !reported && r.CliErr == "" {
+				r.CliErr = lg.failed
+			}
 		}
 		return run
 	}
@@ -274,9 +319,10 @@ func (h *harness) runE2EOne(id int, c *tcase, sub, rsub int, rng *rand.Rand) e2e
 	r.RMacOK = st == "ok"
 	r.Delivered = true
 	// twice: a client that rejects the first copy returns with the second
-	// instead of waiting for its deadline
+	// instead of waiting for its deadline (finish sends more if it does not)
 	R.WriteToUDP(resp, caddr)
 	R.WriteToUDP(resp, caddr)
+	again = func() { R.WriteToUDP(resp, caddr) }
 	return finish()
 }
 
